@@ -18,7 +18,7 @@ from .. import graph as G
 
 LEVEL = 'exploration'
 ENGINE = 'GRAPH'
-TECHNIQUE = 'bounded exhaustive enumeration of opt-in-free object graphs, generated class features, a standard-library value menu and all 1-3 level __getstate__ signature chains, x pickle protocols x {remote True, False}, compared with standard pickle on the real remote_pickle'
+TECHNIQUE = 'bounded exhaustive enumeration of opt-in-free object graphs, generated class features, a standard-library value menu and all 1-3 level __getstate__ signature chains (linear and as mix-in bases, with and without the bases pickled beforehand), x pickle protocols x {remote True, False}, compared with standard pickle on the real remote_pickle'
 LEVEL_TEXT = ('differential oracle against the standard pickle module over a bounded-exhaustive input space: every ordered tree up to the node bound with every single back-edge, every generated class-feature combination, the listed standard values, and every chain of __getstate__ signatures up to 3 levels (Warning clause, reference predicate written from the statement)')
 LEVEL_NOTE = 'equivalence is structural equality of the loaded graphs (sharing included) or equality of the exception type; only the listed node kinds, class features and standard values are covered'
 
@@ -292,7 +292,7 @@ def run(ctx):
     ctx.rule = ('(1) every ordered tree with <= %d nodes over {list, tuple, dict, set, plain instance} + every single back-edge; '
                 '(2) instances of %d generated plain classes (getstate none/self/**kw x setstate x slots x getnewargs x reduce); '
                 '(3) a menu of %d standard values; (4) opt-in graphs with remote=False and through pickle/copy/deepcopy/ForkingPickler; '
-                '(5) every chain of 1-3 levels over signatures {none, (self), (self, remote=False), (self, **kw), (self, remote=False, **kw), (self, *, remote=False)%s} x {metaclass, duck-typed}; '
+                '(5) every chain of 1-3 levels over signatures {none, (self), (self, remote=False), (self, **kw), (self, remote=False, **kw), (self, *, remote=False)%s} x {metaclass, duck-typed} x {linear chain, mix-in bases of one class} x {fresh, every class defined so far dumped before the next is created}; '
                 'x protocols %s; oracle = standard pickle' % (n_max, len(plain_variants()), len(std_menu()),
                                                              ', __reduce__', list(protos)))
     # (1) opt-in-free graphs
